@@ -30,8 +30,8 @@ ASSUMPTIONS = ["sorted inputs are kept <= 400 elements (the sort recurses once p
                "the text of the progress meter is collected but not compared",
                "pmap task functions are module-level (picklable); worker crashes are not injected"]
 THOROUGH_ROUNDS = 5      # the thorough tier runs the generator over this many derived seeds
-REQUIRED = {"quick": {"C20.sort": 1800, "C20.isplit": 12000, "C20.splitarray": 1500, "C20.progress": 4500, "C20.pmap": 160},
-            "thorough": {"C20.sort": 45000, "C20.isplit": 12000, "C20.splitarray": 40000, "C20.progress": 120000, "C20.pmap": 2400}}
+REQUIRED = {"quick": {"C20.sort": 6000, "C20.isplit": 12000, "C20.splitarray": 1500, "C20.progress": 4500, "C20.pmap": 160},
+            "thorough": {"C20.sort": 150000, "C20.isplit": 12000, "C20.splitarray": 40000, "C20.progress": 120000, "C20.pmap": 2400}}
 WATCHDOG = {"quick": 900, "thorough": 7200}
 CASE_TIMEOUT = 300
 
@@ -168,6 +168,43 @@ def run_sort(case):
                           dict(wit2, keys_after=repr(ka)[:200], values_after=repr(da)[:200]))
         else:
             COL.ok("C20.sort", ("keyvalue", vkind) + sig)
+    # ---- bulk: many larger unordered inputs.  A fault tied to one pivot position in one size of range (the pivot being
+    # the third smallest of a long range, say) shows in about one large random sort in a hundred, so the mixed inputs
+    # above - a few hundred large random ones per run - see it in some runs and not in others.
+    for rep in range(40):
+        n = int(rng.integers(150, 900))
+        style = int(rng.integers(0, 3))
+        v = (rng.permutation(n) if style == 0 else rng.integers(0, n * 4, size=n) if style == 1 else rng.integers(0, max(2, n // 3), size=n))
+        container = ["list", "ndarray"][int(rng.integers(0, 2))]
+        data = v.tolist() if container == "list" else v.copy()
+        want = sorted(v.tolist())
+        wit = {"input": repr(v.tolist())[:300], "kind": "bulk", "n": n, "container": container, "style": style}
+        if rep % 2 == 0:
+            res, e = probe.attempt(algorithm.quicksort, data)
+            after = list(data.tolist() if container == "ndarray" else data)
+            if e is not None:
+                COL.violation("C20.sort", "quicksort raised %s: %s" % (type(e).__name__, str(e)[:120]), wit)
+            elif after != want:
+                COL.violation("C20.sort", "quicksort: result is not the sorted input" if sorted(after) == want else
+                              "quicksort: result is not a permutation of the input", dict(wit, result=repr(after)[:300]))
+            else:
+                COL.ok("C20.sort", ("quicksort", "bulk", style, container))
+        else:
+            vals = rng.permutation(n)
+            pairs = sorted(zip(v.tolist(), vals.tolist()))
+            dat = vals.tolist() if container == "list" else vals.copy()
+            res, e = probe.attempt(algorithm.quicksort_keyvalue, data, dat)
+            ka = list(data.tolist() if container == "ndarray" else data)
+            da = list(dat.tolist() if container == "ndarray" else dat)
+            if e is not None:
+                COL.violation("C20.sort", "quicksort_keyvalue raised %s: %s" % (type(e).__name__, str(e)[:120]), wit)
+            elif ka != want:
+                COL.violation("C20.sort", "quicksort_keyvalue: keys are not the sorted keys", dict(wit, result=repr(ka)[:300]))
+            elif sorted(zip(ka, da)) != pairs:
+                COL.violation("C20.sort", "quicksort_keyvalue: key/value pairs were separated or lost",
+                              dict(wit, keys_after=repr(ka)[:200], values_after=repr(da)[:200]))
+            else:
+                COL.ok("C20.sort", ("keyvalue", "bulk", style, container))
 
 
 # ---------------------------------------------------------------------------------------------------------------
